@@ -248,6 +248,18 @@ def _pump_map_call(f):
                     and isinstance(b.func.value, ast.Name) and b.func.value.id == x and len(b.args) == 1 \
                     and isinstance(b.args[0], ast.Name) and b.args[0].id == y and isinstance(n.args[2], ast.Name):
                 return (x, U(n.args[1]), n.args[2].id)
+        # [f.get_pressure(q) for f, q in zip(fcts, vol)]
+        if isinstance(n, ast.ListComp) and len(n.generators) == 1 and isinstance(n.generators[0].iter, ast.Call) \
+                and callee_name(n.generators[0].iter) == "zip" and len(n.generators[0].iter.args) == 2 \
+                and isinstance(n.generators[0].target, ast.Tuple) and len(n.generators[0].target.elts) == 2 \
+                and all(isinstance(e_, ast.Name) for e_ in n.generators[0].target.elts):
+            x, y = [e_.id for e_ in n.generators[0].target.elts]
+            b = n.elt
+            za = n.generators[0].iter.args
+            if isinstance(b, ast.Call) and isinstance(b.func, ast.Attribute) and b.func.attr == "get_pressure" \
+                    and isinstance(b.func.value, ast.Name) and b.func.value.id == x and len(b.args) == 1 \
+                    and isinstance(b.args[0], ast.Name) and b.args[0].id == y and isinstance(za[1], ast.Name):
+                return (x, U(za[0]), za[1].id)
     return None
 
 
